@@ -906,4 +906,24 @@ example (seed : Bytes) : Spec.BIP32.master (mathCrypto Pycoin.Gen.Curves.secp256
 
 end Demo
 
+/-- **path elements in any Unicode digit block.**  Python's `int()` — through which `subkey_for_path` and
+`subpaths_for_path_range` read every path element — accepts the ten digits of each of the 67 non-ASCII decimal-digit blocks of
+Unicode (Arabic-Indic, Devanagari, full-width, mathematical …; `Subpaths.uniZeros`, compared with the interpreter on every run).
+For every such block and every digit string: the model of `int()` reads the numeral written in that block exactly as it reads
+the ASCII spelling (same value, same refusal of the empty numeral) — so such a spelling names the same child index, and
+`C09_path_spelling` / `C09_path_element` extend to it.  Table facts: every block digit has its value, is not an ASCII digit and is
+not white space (`decide +kernel` over the 670 characters). -/
+theorem C09_path_unicode_digits (z : Nat) (hz : z ∈ Pycoin.Subpaths.uniZeros) (ds : List Nat) (h : ∀ d ∈ ds, d < 10) :
+    Pycoin.Subpaths.digitsVal (ds.map fun d => Char.ofNat (z + d)) false 0 =
+      Pycoin.Subpaths.digitsVal (ds.map fun d => Char.ofNat (48 + d)) false 0 ∧
+    (∀ d < 10, Pycoin.Subpaths.pyDigit (Char.ofNat (z + d)) = some d ∧
+      Pycoin.Subpaths.isPySpace (Char.ofNat (z + d)) = false) :=
+  ⟨Pycoin.Subpaths.digitsVal_uni_block z hz ds h false 0,
+   fun d hd => ⟨(Pycoin.Subpaths.uniDigit_table z hz d hd).2.2.1, (Pycoin.Subpaths.uniDigit_table z hz d hd).2.2.2⟩⟩
+
+/-- non-vacuity: Arabic-Indic "٤٢" is read as 42; superscript two and the zero-width space are refused -/
+example : Pycoin.Subpaths.pyInt "٤٢".toList = some 42 ∧ Pycoin.Subpaths.pyInt "\u00a0４_２\u3000".toList = some 42 ∧
+    Pycoin.Subpaths.pyInt "²".toList = none ∧ Pycoin.Subpaths.pyInt "1\u200b".toList = none ∧ 1632 ∈ Pycoin.Subpaths.uniZeros := by
+  decide +kernel
+
 end Pycoin.BIP32
